@@ -50,6 +50,9 @@ Min(T) == MinTab[T]
 Max(T) == MaxTab[T]
 Values(T) == Min(T)..Max(T)
 Representable(T, x) == Min(T) <= x /\ x <= Max(T)
+(* for a type whose values are not TLC integers (real int and wider): the small values that arise
+   from 8/16-bit operands always fit *)
+Fits(T, x) == IF Small(T) THEN Representable(T, x) ELSE TRUE
 
 (* static_cast<T>(x): reduction modulo 2^Bits(T) into the range of T *)
 Wrap(T, x) ==
